@@ -78,6 +78,8 @@ type VC struct {
 	eng      *Engine
 	Name     string
 	lines    []string
+	hdr      []string // declarations that must precede every query of this VC
+	hdrCover []string // the same for cover (satisfiability) queries: exact definitions instead of axiomatised abstractions
 	obls     []*Obligation
 	n        int
 	counts   map[string]int
@@ -87,11 +89,19 @@ type VC struct {
 	Contract *FuncContract
 	replay   *ReplaySpec
 	entryH8  string
+	defOf    map[string]string // define-fun name -> its term
+	consts   map[string]string // heap locations known to hold a literal
+	bound    []string // names of quantifier-bound variables currently in scope
+	skR, skI string   // skolem constants of the frame obligations
 	decisions map[string]bool // forced truth values of opaque predicates (VC-level case split)
 	entry    *State
 }
 
 func (vc *VC) emit(s string) { vc.lines = append(vc.lines, s) }
+func (vc *VC) emitHeader(s string) { vc.hdr = append(vc.hdr, s); vc.hdrCover = append(vc.hdrCover, s) }
+
+// emitHeaderAbs adds a header line used by proof queries only (not by covers).
+func (vc *VC) emitHeaderAbs(s string) { vc.hdr = append(vc.hdr, s) }
 
 func (vc *VC) freshName(hint string) string {
 	vc.n++
@@ -115,7 +125,19 @@ func (vc *VC) def(sort, term, hint string) string {
 	}
 	n := vc.freshName(hint)
 	vc.emit(fmt.Sprintf("(define-fun %s () %s %s)", n, sort, term))
+	if vc.defOf == nil {
+		vc.defOf = map[string]string{}
+	}
+	vc.defOf[n] = term
 	return n
+}
+
+// expand looks through a define-fun name.
+func (vc *VC) expand(t string) string {
+	if d, ok := vc.defOf[t]; ok {
+		return d
+	}
+	return t
 }
 
 func (vc *VC) defS(s Sort, term, hint string) string { return vc.def(s.String(), term, hint) }
@@ -158,7 +180,12 @@ func (vc *VC) oblige(kind, note, reach, goal string, tags ...string) *Obligation
 		Replay:  vc.replay,
 	}
 	vc.obls = append(vc.obls, o)
-	vc.assume(full)
+	if !strings.Contains(full, "(forall ") && !strings.Contains(full, "(exists ") {
+		// execution continues only if the check passed; quantified goals are not
+		// added to the context (they would turn every later query into a
+		// quantified one)
+		vc.assume(full)
+	}
 	return o
 }
 
@@ -296,6 +323,7 @@ func (vc *VC) saneStream(s string) {
 		return
 	}
 	p := sel(vc.entry.H["Spos"], s)
+	vc.assume(not(sel(vc.entry.H["Sfail"], s)))
 	vc.assume(and(app("bvsle", bvLit(64, 0), p), app("bvsle", p, sel("Send", s)), app("bvslt", sel("Send", s), bvLit(64, 1<<40))))
 }
 
@@ -304,5 +332,6 @@ func (vc *VC) saneSink(w string) {
 		return
 	}
 	l := sel(vc.entry.H["Wlen"], w)
+	vc.assume(not(sel(vc.entry.H["Wfail"], w)))
 	vc.assume(and(app("bvsle", bvLit(64, 0), l), app("bvslt", l, bvLit(64, 1<<40))))
 }
